@@ -342,6 +342,10 @@ def npSetColVec {α : Type} (m : List (List α)) (j : Int) (v : List α) : Py (L
   | [x] => m.mapM (fun r => pySet r j x)
   | _ => if m.length ≠ v.length then .error .value else (m.zip v).mapM (fun p => pySet p.1 j p.2)
 
+/-- `d[k] = v` on a dictionary with integer keys kept as an insertion-ordered association list -/
+def pyAssocSet {β : Type} (d : List (Int × β)) (k : Int) (v : β) : List (Int × β) :=
+  if d.any (fun p => p.1 == k) then d.map (fun p => if p.1 == k then (p.1, v) else p) else d ++ [(k, v)]
+
 /-- `np.floor(x)` as an integer -/
 def npFloor (x : Rat) : Int := x.floor
 
